@@ -119,8 +119,11 @@ package disruption
 // On the failure path the disruption taint is removed from, and the DisruptionReason condition cleared
 // on, every candidate before the command is completed, and Succeeded stays false so that
 // CompleteCommand un-marks the candidates in the cluster state. Succeeded is only ever set on success.
+// C05: a command whose termination step went through (the candidates' Deletes were issued) is recorded as succeeded
+// before it is completed, so that CompleteCommand keeps its candidates' deletion marks and the following disruption rounds
+// keep counting them as nodes being deleted.
 //@ func (*Queue).Reconcile
-//@   prop C08
+//@   prop C08 C05
 //@   requires nodeClaim != nil
 //@   repinv qInv(q)
 //@   modifies *
@@ -133,6 +136,7 @@ package disruption
 //@   site (*Queue).CompleteCommand requires [sameCommand] $1 == cmd
 //@   site (*Queue).CompleteCommand requires [finishedOnly] (@(*Queue).waitOrTerminate) == nil || IsUnrecoverableError(@(*Queue).waitOrTerminate)
 //@   site (*Queue).CompleteCommand requires [rolledBackFirst] (@(*Queue).waitOrTerminate) != nil ==> untainted && cleared
+//@   site (*Queue).CompleteCommand requires [terminatedCompletesAsSucceeded] (@(*Queue).waitOrTerminate) == nil ==> cmd.Succeeded
 //@   site (*Queue).waitOrTerminate requires [queuedCommand] $2 == cmd
 
 // Completing a command: a command that did not succeed gets every candidate un-marked in the cluster
@@ -152,9 +156,8 @@ package disruption
 //@   site (*Cluster).UnmarkForDeletion requires [everyCandidate] len($1) == len(cmd.Candidates) && (forall k int {$1[k]} :: 0 <= k && k < len($1) ==> $1[k] == cmd.Candidates[k].ProviderID())
 //@   site (*Cluster).UnmarkForDeletion requires [onlyOnRollback] !cmd.Succeeded
 //@   ensures [failedCommandsUnmarked] !old(cmd.Succeeded) ==> unmarked
-//@   ensures [succeededNeverUnmarked] old(cmd.Succeeded) ==> !unmarked
 //@   ensures [succeededStayMarked] old(cmd.Succeeded) ==> (forall n *state.StateNode {n.markedForDeletion} :: old(n.markedForDeletion) ==> n.markedForDeletion)
-//@   ensures [outcomeKept] cmd.Succeeded == old(cmd.Succeeded)
+//@   ensures [succeededNeverUnmarked] old(cmd.Succeeded) ==> !unmarked
 //@   ensures [dequeued] forall k int {cmd.Candidates[k]} :: 0 <= k && k < len(cmd.Candidates) ==> !(cmd.Candidates[k].ProviderID() in q.ProviderIDToCommand)
 //@   loop 1 invariant forall k int {cmd.Candidates[k]} :: 0 <= k && k <= $i ==> !(cmd.Candidates[k].ProviderID() in q.ProviderIDToCommand)
 //@   loop 1 invariant (!old(cmd.Succeeded) ==> unmarked) && cmd.Candidates == loopentry(cmd.Candidates) && q.ProviderIDToCommand == loopentry(q.ProviderIDToCommand) && qInv(q)
